@@ -234,18 +234,7 @@ def decode(data, marks=None):
 # ---------------------------------------------------------------------------------------------
 # encoder
 
-def _product(lists, limit):
-    res = [b""]
-    for alts in lists:
-        nxt = []
-        for pre in res:
-            for a in alts:
-                if len(pre) + len(a) <= limit:
-                    nxt.append(pre + a)
-        res = nxt
-        if not res:
-            break
-    return res
+_product = mv.product
 
 
 def _str_body(d):
@@ -306,7 +295,7 @@ def encodings(v, mode="full", limit=1 << 30, child_mode=None, modes=None, path=(
     With `modes` (dict path -> mode, default "one"): per-node choice as in ref_cbor.encodings."""
     if v[0] != 'obj':
         raise ValueError("the root of a BSON document is an object")
-    for b in _doc_bodies(v[1], mode, limit, modes, path, False):
+    for b in _doc_bodies(v[1], child_mode or mode, limit, modes, path, False):
         if len(b) <= limit:
             yield b
 
